@@ -26,6 +26,13 @@
 (*   [t |-> "i64", v |-> <<8 bytes>>] [t |-> "str", v |-> <<code points>>] *)
 (*   [t |-> "struct", f |-> << [id |-> n, v |-> value], ... >>]            *)
 (*   [t |-> "list", et |-> elemtag, v |-> << value, ... >>]                *)
+(* Long texts / lists / byte streams may come in RUN FORM: instead of `v`   *)
+(* a field `r` = << [p |-> pattern, n |-> count], ... >>, meaning the       *)
+(* concatenation of each pattern repeated count times (a megabyte of one   *)
+(* repeated character is one run).  The codec works on the run form        *)
+(* exactly: UTF-8 and the element encoding are homomorphisms over          *)
+(* concatenation, so the encoding of `pattern` repeated n times is the     *)
+(* encoding of `pattern`, repeated n times (RunLaw in TBinaryWireCheck).   *)
 (*   [t |-> "none"]   (unset argument / optional field: not transmitted)   *)
 (*   [t |-> "opaque"] (a Python object that is not a value of the expected *)
 (*                     type; never equal to any prescribed value)          *)
@@ -56,6 +63,16 @@ Utf8Of(c) ==
 
 Utf8(cps) == FoldLeft(LAMBDA acc, c : acc \o Utf8Of(c), <<>>, cps)
 
+\* ---------------------------------------------------------------- run form
+\* `pat` repeated n times (linear: a function constructor, no repeated concatenation)
+Rep(pat, n) == LET L == Len(pat) IN [i \in 1..(n * L) |-> pat[((i - 1) % L) + 1]]
+\* the sequence a run form stands for
+ExpandRuns(rs) == FoldLeft(LAMBDA acc, x : acc \o Rep(x.p, x.n), <<>>, rs)
+RunsLen(rs) == FoldLeft(LAMBDA acc, x : acc + Len(x.p) * x.n, 0, rs)
+\* UTF-8 of a text in run form
+Utf8Runs(rs) == FoldLeft(LAMBDA acc, x : acc \o Rep(Utf8(x.p), x.n), <<>>, rs)
+HasRuns(v) == "r" \in DOMAIN v
+
 \* ---------------------------------------------------------------- values
 TBool == 2   TI32 == 8   TI64 == 10   TString == 11   TStruct == 12   TList == 15
 TCall == 1   TReply == 2   TException == 3   TOneway == 4
@@ -74,17 +91,23 @@ EncVal(v) ==
   CASE v.t = "bool" -> <<v.v>>
     [] v.t = "i32" -> I32B(v.v)
     [] v.t = "i64" -> v.v
-    [] v.t = "str" -> LET u == Utf8(v.v) IN I32B(Len(u)) \o u
+    [] v.t = "str" -> LET u == IF HasRuns(v) THEN Utf8Runs(v.r) ELSE Utf8(v.v) IN I32B(Len(u)) \o u
     [] v.t = "struct" -> EncFields(v.f)
-    [] v.t = "list" -> <<TypeCode(v.et)>> \o I32B(Len(v.v))
-                        \o FoldLeft(LAMBDA acc, x : acc \o EncVal(x), <<>>, v.v)
+    [] v.t = "list" ->
+         IF HasRuns(v)
+           THEN <<TypeCode(v.et)>> \o I32B(RunsLen(v.r))
+                \o FoldLeft(LAMBDA acc, x : acc \o Rep(FoldLeft(LAMBDA a2, y : a2 \o EncVal(y), <<>>, x.p), x.n),
+                             <<>>, v.r)
+           ELSE <<TypeCode(v.et)>> \o I32B(Len(v.v))
+                \o FoldLeft(LAMBDA acc, x : acc \o EncVal(x), <<>>, v.v)
 
 \* A value the codec can encode (no opaque / none at the top, recursively).
 RECURSIVE Encodable(_)
 Encodable(v) ==
   CASE v.t \in {"bool", "i32", "i64", "str"} -> TRUE
     [] v.t = "struct" -> \A i \in DOMAIN v.f : v.f[i].v.t = "none" \/ Encodable(v.f[i].v)
-    [] v.t = "list" -> \A i \in DOMAIN v.v : Encodable(v.v[i])
+    [] v.t = "list" -> IF HasRuns(v) THEN \A i \in DOMAIN v.r : \A j \in DOMAIN v.r[i].p : Encodable(v.r[i].p[j])
+                       ELSE \A i \in DOMAIN v.v : Encodable(v.v[i])
     [] OTHER -> FALSE
 
 \* ---------------------------------------------------------------- messages
@@ -175,6 +198,11 @@ Idl == [
   drop  |-> [nm |-> <<100, 114, 111, 112>>, oneway |-> FALSE, void |-> TRUE,
              exc |-> <<[id |-> 1, cls |-> "Boom"]>>,
              args |-> <<[id |-> 1, k |-> "key"]>>],
+  \* service Deep (gen_py_x/deep) extends Derived extends Base: a third level of inheritance
+  label |-> [nm |-> <<108, 97, 98, 101, 108>>, oneway |-> FALSE, void |-> FALSE, exc |-> <<>>,
+             args |-> <<[id |-> 1, k |-> "s"]>>],
+  names |-> [nm |-> <<110, 97, 109, 101, 115>>, oneway |-> FALSE, void |-> FALSE, exc |-> <<>>,
+             args |-> <<[id |-> 1, k |-> "n"], [id |-> 2, k |-> "prefix"]>>],
   \* service Other (gen_py_x/other): methods NAMED like the ones above (same wire name nm) but with
   \* different argument lists / result types; the key carries the interface, the wire name does not.
   other_hi    |-> [nm |-> <<104, 105>>, oneway |-> FALSE, void |-> FALSE, exc |-> <<>>,
